@@ -5,12 +5,14 @@
                       TN=total-rowsum_j-colsum_j+M[j,j]; the four cells sum to the total; P_j=rowsum_j, TOP_j=colsum_j
   per-class metrics   through the cm_class_metric wrapper (executed): shape X+(N,), value at class j is the binary metric of the
                       j-th one-vs-all matrix; accuracy = trace / population (NaN iff population 0)
-  from predictions    _assign_from_predictions executed with the accumulation loop unrolled for L = 1..3 samples over C = 2..3 classes,
-                      all labels / predictions / weights symbolic: entry [i,j] is the total weight of samples (i,j); any class order
-                      (bounded in L and C -- labelled bounded-symbolic, see evidence)
+  from predictions    _assign_from_predictions for ANY number of samples over C = 2..3 classes in any order: the accumulation loop carries the
+                      sidecar invariant matrix[i][j] = W_ij(k) (recursive definition of the total weight of the samples (i,j) among the
+                      first k); init / preservation / exit are obligations.  Additionally unrolled for L = 1..3 (all values symbolic) as a
+                      cross-check of the invariant machinery.  The number of classes is concrete (2, 3).
   from matrix         nested lists / dict of dicts with any class order: out[i][j] = M[cls_i][cls_j]
 DataFrame input, as_dict and permutation equivariance are covered by the bounded layer (pandas is outside the engine).
 """
+import ast
 import itertools
 
 import numpy as np
@@ -19,7 +21,7 @@ from z3 import And, BoolVal, Function, If, Implies, Int, IntSort, Not, Or, Real,
 from vf import bounded as B
 from vf import prims as P
 from vf.common import new_exec, run_function, run_method
-from vf.engine import FV, Axis, Obj, Oblig, Path, T, is_sym, nan_of, same_size, toB, toI, toR
+from vf.engine import FV, Axis, Obj, Oblig, Path, T, Unsupported, is_sym, nan_of, same_size, toB, toI, toR
 from vf.proof import prove
 
 LEVEL = "proof"
@@ -52,12 +54,16 @@ def build(sizes=None, only=None, part=None):
         for C, L in ((2, 1), (2, 2), (3, 2), (3, 3)):
             for weighted in (False, True):
                 obs += guarded(build_predictions, C, L, weighted)
+    if part in (None, "predind"):
+        for C in (2, 3):
+            for weighted in (False, True):
+                obs += guarded(build_predictions_inductive, C, weighted)
     if part in (None, "matrix"):
         obs += guarded(build_from_matrix)
     return obs
 
 
-PARTS = ["ova", "pred", "matrix"]
+PARTS = ["ova", "pred", "predind", "matrix"]
 
 
 def guarded(fn, *a):
@@ -176,6 +182,102 @@ def build_predictions(C, L, weighted):
                                  {"key": "C05/from_predictions/entry"}))
         for so in ex.obligs:
             so.id = f"C05/from_predictions/safety:{so.id}#{len(obs)}{ptag}"
+            so.props = ("C05",)
+            obs.append(so)
+    return obs
+
+
+def build_predictions_inductive(C, weighted):
+    """_assign_from_predictions for ANY number of samples (C classes in an arbitrary order): the accumulation loop is handled with the
+    sidecar loop invariant  matrix[i][j] = W_ij(k)  after k samples, where W_ij(k+1) = W_ij(k) + [label_k = class_i and pred_k = class_j] * w_k
+    is the recursive definition of 'total weight of the samples (i, j) among the first k'.  init / preservation (body executed once
+    from a havocked state satisfying the invariant) / exit are obligations; the conclusion is the invariant at k = L."""
+    from z3 import ForAll, Function, IntSort
+    obs = []
+    tag0 = f"[C={C},any-L,{'weights' if weighted else 'unit-weights'}]"
+    for perm in itertools.permutations(range(C)):
+        classes = list(perm)
+        tag = tag0[:-1] + f",order={classes}]"
+        st = {}
+
+        def handler(ex, s, it, env, path, classes=classes, tag=tag, st=st):
+            seqs = it[1]
+            lab_t, prd_t, w_t = seqs
+            Lz = toI(lab_t.axes[0].size)
+            # the loop-carried array: the root name of the (augmented) subscript store in the body
+            roots = set()
+            for node in ast.walk(ast.Module(body=list(s.body), type_ignores=[])):
+                if isinstance(node, (ast.AugAssign, ast.Assign)):
+                    tg = node.target if isinstance(node, ast.AugAssign) else node.targets[0]
+                    while isinstance(tg, ast.Subscript):
+                        tg = tg.value
+                    if isinstance(tg, ast.Name):
+                        roots.add(tg.id)
+            roots = [r_ for r_ in roots if isinstance(env.get(r_), T)]
+            if len(roots) != 1:
+                raise Unsupported("accumulation loop: the loop-carried array was not identified")
+            mname = roots[0]
+            m0 = env[mname]
+            W = Function(f"W!{next(ex.fresh)}", IntSort(), IntSort(), IntSort(), RealSort())
+            k, K = Int("k!acc"), Int("K!acc")
+            wk = lambda kk: toR(w_t.elem(kk))
+            ax = []
+            for i in range(C):
+                for j in range(C):
+                    ax.append(W(i, j, 0) == 0)
+                    ax.append(ForAll([k], Implies(k >= 0, W(i, j, k + 1) == W(i, j, k) + If(And(toI(lab_t.elem(k)) == classes[i], toI(prd_t.elem(k)) == classes[j]), wk(k), 0)),
+                                     patterns=[W(i, j, k + 1)]))
+            for f in ax:
+                path.add(f)
+            st.update(W=W, L=Lz, ax=ax)
+            ex.oblige(f"from_predictions/loop-invariant-init{tag}", path, And(*[toR(m0.elem(i, j)) == W(i, j, 0) for i in range(C) for j in range(C)]), "loop-invariant", ("C05",))
+            # preservation: arbitrary state satisfying the invariant at K, one execution of the body
+            cells = [[ex.new_real(f"m{i}{j}") for j in range(C)] for i in range(C)]
+            mk_ = T(m0.axes, lambda i, j: P.sel([P.sel(row, j) for row in cells], i), kind=m0.kind, prov=m0.prov)
+            p2 = path.copy()
+            p2.add(And(0 <= K, K < Lz))
+            p2.add(And(*[cells[i][j] == W(i, j, K) for i in range(C) for j in range(C)]))
+            for i in range(C):
+                for j in range(C):
+                    p2.add(W(i, j, K + 1) == W(i, j, K) + If(And(toI(lab_t.elem(K)) == classes[i], toI(prd_t.elem(K)) == classes[j]), wk(K), 0))
+            env2 = dict(env)
+            env2[mname] = mk_
+            ex.assign(s.target, (lab_t.elem(K), prd_t.elem(K), w_t.elem(K)), env2, p2)
+            ends = []
+            bouts = []
+            ex.block(list(s.body), env2, p2, bouts, lambda e_, p_: ends.append((e_, p_)))
+            if bouts or len(ends) != 1:
+                raise Unsupported("accumulation loop body forks, returns or raises")
+            e3, p3 = ends[0]
+            m1 = e3[mname]
+            ex.oblige(f"from_predictions/loop-invariant-preserved{tag}", p3, And(*[toR(m1.elem(i, j)) == W(i, j, K + 1) for i in range(C) for j in range(C)]), "loop-invariant", ("C05",))
+            # exit: the invariant at k = L
+            env[mname] = T(m0.axes, lambda i, j: P.sel([P.sel([W(a_, b_, Lz) for b_ in range(C)], j) for a_ in range(C)], i), kind=m0.kind, prov=m0.prov)
+        ex = new_exec(invariants={("ConfusionMatrix._assign_from_predictions", "for", 0): {"handler": handler}})
+        path = Path()
+        from z3 import Array
+        LBa, PRa = Array("labels_arr", IntSort(), IntSort()), Array("preds_arr", IntSort(), IntSort())
+        Ln = Int("nb_samples")
+        path.add(Ln >= 0)
+        q = Int("q!pre")
+        # pre-condition: every label and prediction is one of the classes
+        path.add(ForAll([q], Implies(And(0 <= q, q < Ln), And(0 <= LBa[q], LBa[q] < C, 0 <= PRa[q], PRa[q] < C))))
+        lab = T((Axis("L", Ln),), lambda k_: LBa[toI(k_)], kind="int", prov="param:labels")
+        prd = T((Axis("L", Ln),), lambda k_: PRa[toI(k_)], kind="int", prov="param:predictions")
+        wt = P.mk_array(ex, path, "weights", None, floats=False, prov="param:weights") if weighted else None
+        if weighted:
+            wt = wt.with_(axes=(Axis("L", Ln),))
+        owner, fn = ex.find("ConfusionMatrix", "_assign_from_predictions")
+        res = ex.call_node(owner, fn, [lab, prd, wt, classes, False], {}, path)
+        matrix, cls = res
+        ok = isinstance(matrix, T) and matrix.ndim == 2 and [a.size for a in matrix.axes] == [C, C] and "W" in st
+        obs.append(Oblig(f"C05/from_predictions/shape{tag}", [], BoolVal(bool(ok)), "shape", ("C05",), {} if ok else {"engine_error": "accumulation loop not recognised"}))
+        if ok:
+            W, Lz = st["W"], st["L"]
+            obs.append(Oblig(f"C05/from_predictions/entry[i,j]-is-the-total-weight-of-samples-(i,j){tag}", path.pc,
+                             And(*[toR(matrix.elem(i, j)) == W(i, j, Lz) for i in range(C) for j in range(C)]), "post", ("C05",), {"key": "C05/from_predictions/entry"}))
+        for so in ex.obligs:
+            so.id = ("C05/" + so.id) if so.id.startswith("from_predictions/") else f"C05/from_predictions/safety:{so.id}#{len(obs)}{tag}"
             so.props = ("C05",)
             obs.append(so)
     return obs
